@@ -32,13 +32,17 @@ def cases(tier):
                     out.append(Case('c13.%s.%s_%s.n%d' % (name, x, y, n0), 'schedmap.c', {'VF_CONT': cont, 'VF_OP1': MOPS[x], 'VF_OP2': MOPS[y], 'VF_N0': n0}, unwind=8,
                                     unwindset={'put_obj': 4, 'remove_obj': 4, 'remove_min': 4, 'free_objs': 4}, checks='func', timeout=600 if tier == 'quick' else 1800, funcs=MF[cont],
                                     desc='%s: T1=%s overlapped by T2=%s at a solver-chosen scheduling point, %d initial keys; keys/values symbolic' % (name, x, y, n0)))
+    # the lock primitive itself, contended (the container queries above model a trylock that always succeeds)
+    for w in ((3,) if tier == 'quick' else (3, 40)):
+        out.append(Case('c13.mx.contended.w%d' % w, 'mutex.c', {'QLIBC_VERIF_MAX_MUTEX_LOCK_WAIT': w}, unwind=w + 3, checks='func', timeout=600, funcs=['Q_MUTEX_NEW', 'Q_MUTEX_ENTER', 'Q_MUTEX_LEAVE', 'Q_MUTEX_DESTROY'], unwind_owner='C13',
+                        desc='Q_MUTEX_ENTER/LEAVE with the mutex held by another logical thread at depth 0..2 that lets go after a solver-chosen number (0..2*WAIT+1) of failed attempts; spin bound scaled to %d by the guarded hook; 1..3 nested enters' % w))
     return out
 
 
 def meta(tier):
     return {'level': 'model_checking',
             'bounds': 'two logical threads, one call each; vector and list with 0..%d initial one-byte elements, list table (UNIQUE), hash table (range 2) and tree table with 1..2 initial keys out of {a,b}; T2 injected at any outermost lock acquisition/release of T1 (or before/after); indexes over the whole int range' % (2 if tier == 'quick' else 3),
-            'outside': ['more than two threads / more than one call per thread', 'map containers: only putstr/getstr(copy)/remove/size/clear over two keys; walks under the container lock are not encoded',
+            'outside': ['more than two threads / more than one call per thread', 'Q_MUTEX_ENTER is checked with MAX_MUTEX_LOCK_WAIT scaled from 5000 to 3 (thorough: 40) by the guarded hook (5000: no verdict in 20 min); the macro uses the constant only as the spin bound', 'map containers: only putstr/getstr(copy)/remove/size/clear over two keys; walks under the container lock are not encoded',
                         'randomised long stress schedules on a race-detecting build; data races without an observable non-linearizable outcome; memory-model effects', 'interleavings INSIDE a critical section (excluded by mutual exclusion, which is assumed from pthread)'],
             'stubs': ['lock model of stubs.h with scheduling hook (trylock always succeeds for the running logical thread; T2 runs only when T1 holds no lock)', 'allocator shim (never fails)'],
             'assumptions': ['pthread mutual exclusion works: no second thread runs inside another thread\'s critical section', 'the pre-state is built through the public API (n appends)'],
